@@ -59,7 +59,7 @@ def main(argv=None):
             print("ANALYSIS-ERROR unknown property %s" % pid)
             return 2
         try:
-            run = run_property(pid, args.tier, seed)
+            run = run_property(pid, args.tier, seed, write=not os.environ.get("VERIF_NO_EVIDENCE"))
             code = run.exit_code
         except AnalysisError as e:
             print("ANALYSIS-ERROR property=%s %s: %s" % (pid, type(e).__name__, e))
